@@ -9,6 +9,15 @@ CHECKS = {
  "C04": ("exploration", "differential vs reference matcher in both directions (Match on stored filters, Search on stored names)",
          "exhaustive over {a,b,empty,+,#} to depth 3 (quick) / 4 (thorough): all single pairs, all pairs of entries, whole universe in one tree; plus random sets to depth 12 with multi-byte levels",
          "trusts internal/ref/topic.go (15 lines) as the reading of MQTT 3.1.1 §4.7 without the $ rule; built without -race (sequential property)", "2-C04"),
+ "C02": ("exploration", "differential vs independent reference decoder; panic trap; locality probe (framed vs framed+junk); ownership probe (overwrite source buffer / reuse stream pool); re-encodability of admitted messages",
+         "exhaustive 1-byte (quick) and 2-byte (thorough) length headers x 256 first bytes x body patterns, CONNECT field matrix (names x levels x all 256 flag bytes), structure-aware mutations of valid encodings (bit flips, byte edits, truncation at every offset, extension, splicing), >=150k random strings; every input decoded five ways and compared with ref/codec",
+         "trusts internal/ref/codec.go with the leniencies listed in DESIGN.md; two Connect.Decode findings are recorded in known_findings.json; built without -race but with -d=checkptr", "2-C02"),
+ "C05": ("exploration", "map reference model driven side by side with all queries after every step; trie-shape comparison with a fresh tree; snapshot re-comparison of returned slices; porcupine linearizability check of concurrent histories; Go race detector",
+         "exhaustive mutation sequences of length 3 (quick) / 4 and 5 (thorough) over a 4-topic x 2-value universe, random sequences to length 400, 2.5k (quick) / 50k (thorough) concurrent histories of 2-16 goroutines",
+         "porcupine v1.3.0 and the Go race detector are trusted; result order and the choice of MatchFirst/SearchFirst are left free", "2-C05"),
+ "C18": ("exploration", "reference successor function over all 65536 counter states; distinctness walks; concurrent draws across the wrap; map model of the packet store over bounded-exhaustive op sequences; porcupine (partitioned by direction,id); Go race detector",
+         "all 65536 counter states (one step), 256 (quick) / all 65536 (thorough) full 65535-draw walks, 8k/100k concurrent rounds at the wrap-around, store op sequences to length 3/4 over 25 operations with full-state comparison, 4k/60k concurrent store histories",
+         "MemorySession.Reset is exercised sequentially only (it spans both stores and the counter and is not claimed atomic across directions); concurrently the per-direction PacketStore.Reset is used", "2-C18"),
 }
 NOT_APPLICABLE = {}
 def main():
